@@ -124,6 +124,14 @@ pub struct Pt {
 pub fn absolute_tolerance_pt(p: &Pt, q: &Pt) -> bool {
     (p.x - q.x).abs() < 1e-9 && p.y * q.y > p.x
 }
+/// the shape of seed s95: a filter bound that grows linearly with the coordinates, hidden behind inherent f64 methods
+pub fn linear_filter_bound(p: &Pt, q: &Pt, r: &Pt) -> bool {
+    let (ax, ay) = (q.x - p.x, q.y - p.y);
+    let (bx, by) = (r.x - p.x, r.y - p.y);
+    let det = ax * by - ay * bx;
+    let scale = ax.abs().max(ay.abs()).max(bx.abs()).max(by.abs());
+    det.abs() > 8. * f64::EPSILON * scale
+}
 
 // ---- evaluator model controls: each function has a known truth table (selftest/models.py compares the explored paths with it)
 pub mod models {
